@@ -410,15 +410,7 @@ impl DMat3 {
     /// Panics if `slice` is less than 9 elements long.
     #[inline]
     pub fn write_cols_to_slice(self, slice: &mut [f64]) {
-        slice[0] = self.x_axis.x;
-        slice[1] = self.x_axis.y;
-        slice[2] = self.x_axis.z;
-        slice[3] = self.y_axis.x;
-        slice[4] = self.y_axis.y;
-        slice[5] = self.y_axis.z;
-        slice[6] = self.z_axis.x;
-        slice[7] = self.z_axis.y;
-        slice[8] = self.z_axis.z;
+        slice[..9].copy_from_slice(&self.to_cols_array());
     }
 
     /// Returns the matrix column for the given `index`.
